@@ -26,6 +26,14 @@ class ObservableBase(abc.ABC):
     _name = None
     _symbol = None
 
+    # Operands are type-checked by the reflected operators below. Without this,
+    # a numpy array (or numpy scalar) standing on the LEFT of an observable does
+    # not return NotImplemented: numpy treats the observable as an object-array
+    # element, so `np.array([1.0, 2.0]) * obs` silently builds an object array
+    # of composites and `np.int64(3) * obs` is accepted although
+    # `obs * np.int64(3)` is a TypeError. Make numpy defer to __radd__ & co.
+    __array_ufunc__ = None
+
     @property
     def name(self):
         """The name of the Observable."""
